@@ -52,9 +52,32 @@ func runC06(c *Ctx, r *Rec) {
 			r.undecided("D1-waitgroup-pairing", construct, c.pos(fd.Pos()), "no go statement found")
 			continue
 		}
-		lit, _ := goStmt.Call.Fun.(*ast.FuncLit)
-		if lit == nil {
-			r.undecided("D1-waitgroup-pairing", construct, c.pos(goStmt.Pos()), "the goroutine is not a function literal")
+		// the body of the goroutine: a function literal, or a private function/method of the
+		// repository called with the helper's variables (objects are mapped through the arguments)
+		var gbody *ast.BlockStmt
+		mapObj := func(o types.Object) types.Object { return o }
+		if lit, _ := goStmt.Call.Fun.(*ast.FuncLit); lit != nil {
+			gbody = lit.Body
+		} else if d := c.declOf(calleeOf(info, goStmt.Call)); d != nil && d.Body != nil && c.infoFor(d) == info {
+			gbody = d.Body
+			gparams := paramObjs(info, d)
+			gcall := goStmt.Call
+			mapObj = func(o types.Object) types.Object {
+				if o == nil {
+					return nil
+				}
+				for i, a := range gcall.Args {
+					if isObj(info, a, o) && i < len(gparams) {
+						return gparams[i]
+					}
+				}
+				return nil
+			}
+		}
+		if gbody == nil {
+			r.skip("D1-waitgroup-pairing", construct, c.pos(goStmt.Pos()), "the goroutine's body is neither a function literal nor a function of the repository")
+			r.skip("D2-closure-propagation", construct, c.pos(goStmt.Pos()), "the goroutine's body could not be bound")
+			r.skip("D3-distribution", construct, c.pos(goStmt.Pos()), "the goroutine's body could not be bound")
 			continue
 		}
 		// the group parameter: the one with Add/Done methods
@@ -71,17 +94,23 @@ func runC06(c *Ctx, r *Rec) {
 		}
 		// ---- D1
 		var adds, dones []ast.Node
-		ast.Inspect(fd.Body, func(x ast.Node) bool {
-			if rx, mname, call, ok := methodCall(x); ok && isObj(info, rx, group) {
-				switch mname {
-				case "Add":
-					adds = append(adds, call)
-				case "Done":
-					dones = append(dones, call)
-				}
+		gGroup := mapObj(group)
+		for _, scope := range []ast.Node{fd.Body, gbody} {
+			if scope == ast.Node(gbody) && containsNode(fd.Body, gbody) {
+				continue // a literal: already visited
 			}
-			return true
-		})
+			ast.Inspect(scope, func(x ast.Node) bool {
+				if rx, mname, call, ok := methodCall(x); ok && (isObj(info, rx, group) || (gGroup != nil && isObj(info, rx, gGroup))) {
+					switch mname {
+					case "Add":
+						adds = append(adds, call)
+					case "Done":
+						dones = append(dones, call)
+					}
+				}
+				return true
+			})
+		}
 		g := newFG(info, fd.Body)
 		bad := ""
 		switch {
@@ -89,7 +118,7 @@ func runC06(c *Ctx, r *Rec) {
 			bad = fmt.Sprintf("%d calls of group.Add, required exactly one", len(adds))
 		case len(dones) != 1:
 			bad = fmt.Sprintf("%d calls of group.Done, required exactly one", len(dones))
-		case containsNode(lit, adds[0]):
+		case containsNode(gbody, adds[0]):
 			bad = "group.Add is called inside the goroutine: Wait can return before the helper has registered"
 		case !g.nodeDominates(adds[0], goStmt):
 			bad = "group.Add(1) does not dominate the go statement"
@@ -97,7 +126,7 @@ func runC06(c *Ctx, r *Rec) {
 			if tv := info.Types[adds[0].(*ast.CallExpr).Args[0]]; tv.Value == nil || tv.Value.String() != "1" {
 				bad = "group.Add is not called with 1 for the single goroutine started"
 			}
-			ds, ok := firstStmt(lit.Body).(*ast.DeferStmt)
+			ds, ok := firstStmt(gbody).(*ast.DeferStmt)
 			if !ok || ds.Call != dones[0] {
 				bad = "the goroutine's first statement is not `defer group.Done()`: a panic or early exit leaves the wait group counted up"
 			}
@@ -107,7 +136,7 @@ func runC06(c *Ctx, r *Rec) {
 		// ---- shape of the goroutine
 		var readLoop *ast.ForStmt
 		var readIdx int
-		for i, s := range lit.Body.List {
+		for i, s := range gbody.List {
 			if fs, ok := s.(*ast.ForStmt); ok {
 				reads := false
 				inspectNoLit(fs.Body, func(x ast.Node) bool {
@@ -125,11 +154,11 @@ func runC06(c *Ctx, r *Rec) {
 			}
 		}
 		if readLoop == nil {
-			r.skip("D2-closure-propagation", construct, c.pos(lit.Pos()), "no unconditional read loop at the top level of the goroutine: the closure and distribution rules are bound to the `for { v, ok := in.RemoveHead(); if !ok { break } ... }` design")
-			r.skip("D3-distribution", construct, c.pos(lit.Pos()), "no unconditional read loop at the top level of the goroutine")
+			r.skip("D2-closure-propagation", construct, c.pos(gbody.Pos()), "no unconditional read loop at the top level of the goroutine: the closure and distribution rules are bound to the `for { v, ok := in.RemoveHead(); if !ok { break } ... }` design")
+			r.skip("D3-distribution", construct, c.pos(gbody.Pos()), "no unconditional read loop at the top level of the goroutine")
 			continue
 		}
-		after := lit.Body.List[readIdx+1:]
+		after := gbody.List[readIdx+1:]
 		// the value read and its ok
 		var valueObj types.Object
 		var readCall *ast.CallExpr
@@ -165,7 +194,13 @@ func runC06(c *Ctx, r *Rec) {
 			r.skip("D3-distribution", construct, c.pos(fd.Pos()), "the helper does not return a variable")
 			continue
 		}
-		lg := newFG(info, lit.Body)
+		lg := newFG(info, gbody)
+		retObj = mapObj(retObj) // as the goroutine's body knows it
+		if retObj == nil {
+			r.skip("D2-closure-propagation", construct, c.pos(fd.Pos()), "what the helper returns is not handed to the goroutine as a variable")
+			r.skip("D3-distribution", construct, c.pos(fd.Pos()), "what the helper returns is not handed to the goroutine as a variable")
+			continue
+		}
 
 		if name == "Join" {
 			// D2: output.CloseQueue() at top level after the loop
@@ -177,7 +212,7 @@ func runC06(c *Ctx, r *Rec) {
 					}
 				}
 			}
-			elsewhere := len(callsOnIn(info, lit.Body, retObj, "CloseQueue")) > 0 || passedToHelper(c, info, after, retObj)
+			elsewhere := len(callsOnIn(info, gbody, retObj, "CloseQueue")) > 0 || passedToHelper(c, info, after, retObj)
 			switch {
 			case closed:
 				r.ok("D2-closure-propagation", construct, c.pos(readLoop.Pos()), "the returned output queue is closed unconditionally after the read loop")
@@ -200,7 +235,7 @@ func runC06(c *Ctx, r *Rec) {
 				}
 			}
 			wrap := iterObj != nil && wrapCheckFollows(info, lg, readLoop, iterObj, getNext)
-			start := iterObj != nil && startsFromStart(info, lit.Body, readLoop, iterObj)
+			start := iterObj != nil && startsFromStart(info, gbody, readLoop, iterObj)
 			if iterObj == nil || getNext == nil || len(adds) == 0 {
 				r.skip("D3-distribution", construct, c.pos(readLoop.Pos()), "the read loop does not advance a cyclic iterator with one GetNext and add to the output in its own body")
 				continue
@@ -213,7 +248,7 @@ func runC06(c *Ctx, r *Rec) {
 
 		// Fork / Split: iterator over the returned outputs
 		var iterObj types.Object
-		for _, s := range lit.Body.List[:readIdx] {
+		for _, s := range gbody.List[:readIdx] {
 			ast.Inspect(s, func(x ast.Node) bool {
 				switch d := x.(type) {
 				case *ast.ValueSpec:
@@ -241,8 +276,8 @@ func runC06(c *Ctx, r *Rec) {
 			})
 		}
 		if iterObj == nil {
-			r.skip("D2-closure-propagation", construct, c.pos(lit.Pos()), "no iterator over the returned outputs is created before the read loop")
-			r.skip("D3-distribution", construct, c.pos(lit.Pos()), "no iterator over the returned outputs is created before the read loop")
+			r.skip("D2-closure-propagation", construct, c.pos(gbody.Pos()), "no iterator over the returned outputs is created before the read loop")
+			r.skip("D3-distribution", construct, c.pos(gbody.Pos()), "no iterator over the returned outputs is created before the read loop")
 			continue
 		}
 		// D2: covering traversal from Start that closes
@@ -260,6 +295,18 @@ func runC06(c *Ctx, r *Rec) {
 		} else {
 			// Split: one GetNext per iteration whose result gets AddValue(value); wrap check
 			_, getNext := cyclicIterator(info, readLoop)
+			// more than one advance of the output rotation per value read: some output is skipped
+			nAdvance := 0
+			inspectNoLit(readLoop.Body, func(x ast.Node) bool {
+				if methodCallOn(info, x, iterObj, "GetNext") {
+					nAdvance++
+				}
+				return true
+			})
+			if nAdvance > 1 {
+				r.fail("D3-distribution", construct, c.pos(readLoop.Pos()), fmt.Sprintf("the rotation over the outputs is advanced %d times in one iteration of the read loop: a value can go to an output whose turn it is not (value i no longer lands in output i mod fan-out)", nAdvance))
+				continue
+			}
 			okOne := false
 			if getNext != nil {
 				// output := iterator.GetNext(); output.AddValue(value)
@@ -292,6 +339,7 @@ func runC06(c *Ctx, r *Rec) {
 				fmt.Sprintf("Split's loop must give each value read to exactly the output yielded by one GetNext and wrap with `if !HasNext { ToStart }` before the next iteration (adds-to-next-output=%v adds=%d wrap-check=%v read-before-advance=%v)", okOne, nAdds, wrap, dom))
 		}
 	}
+	checkTokenBalanceAtBirth(c, r, "D5-token-balance", qr) // a preloaded input stream delivers every value
 	r.floor("D1-waitgroup-pairing", 3)
 	r.floor("D2-closure-propagation", 3)
 	r.floor("D4-loop-progress", 1)
@@ -368,36 +416,37 @@ func cyclicIterator(info *types.Info, loop *ast.ForStmt) (types.Object, *ast.Cal
 // wrapCheckFollows: every path from the GetNext call to the next iteration
 // passes `if !X.HasNext() { X.ToStart() }`.
 func wrapCheckFollows(info *types.Info, g *FG, loop *ast.ForStmt, iter types.Object, getNext *ast.CallExpr) bool {
-	// find the if statement
-	var wrapIf *ast.IfStmt
-	inspectNoLit(loop.Body, func(x ast.Node) bool {
-		is, ok := x.(*ast.IfStmt)
-		if !ok || is.Else != nil {
-			return true
-		}
-		u, ok := ast.Unparen(is.Cond).(*ast.UnaryExpr)
-		if !ok || u.Op != token.NOT || !methodCallOn(info, ast.Unparen(u.X), iter, "HasNext") {
-			return true
-		}
-		if len(is.Body.List) == 1 {
-			if es, ok := is.Body.List[0].(*ast.ExprStmt); ok && methodCallOn(info, es.X, iter, "ToStart") {
-				wrapIf = is
-			}
-		}
-		return true
-	})
-	if wrapIf == nil {
-		return false
-	}
+	// No path from just after the GetNext back to the start of the loop body may both avoid
+	// X.ToStart() and avoid the edge on which X.HasNext() is known to be true: on such a path the
+	// iterator may sit at its end when GetNext is called again.
 	pt, ok := g.after(getNext)
 	if !ok {
 		return false
 	}
 	_, body, _ := g.loopBlocks(loop)
-	// a path from after GetNext back to the start of the loop body that avoids the wrap condition?
+	if body == nil {
+		return false
+	}
+	isToStart := func(n ast.Node) bool {
+		return nodeHas(n, func(x ast.Node) bool { return methodCallOn(info, x, iter, "ToStart") })
+	}
 	skip, _ := g.exists(pathQuery{
-		from:    pt,
-		stop:    func(n ast.Node) bool { return containsNode(wrapIf.Cond, n) || containsNode(n, wrapIf.Cond) },
+		from: pt,
+		stop: isToStart,
+		edgeOK: func(cond ast.Expr, pol bool) bool {
+			c := ast.Unparen(cond)
+			for {
+				u, ok := c.(*ast.UnaryExpr)
+				if !ok || u.Op != token.NOT {
+					break
+				}
+				c, pol = ast.Unparen(u.X), !pol
+			}
+			if methodCallOn(info, c, iter, "HasNext") && pol {
+				return false // more values follow: no wrap needed on this edge
+			}
+			return true
+		},
 		goalBlk: func(b *cfg.Block) bool { return b == body },
 	})
 	return !skip
